@@ -7,6 +7,7 @@ import (
 
 	"github.com/aclements/go-moremath/graph"
 	"github.com/aclements/go-moremath/graph/graphalg"
+	"github.com/aclements/go-moremath/graph/graphout"
 )
 
 // C18: graph package. One case struct for all slices; Op selects the slice
@@ -20,6 +21,14 @@ import (
 //	6  SimplifyMulti(G with weights W; W absent = plain graph)
 //	7  SubgraphKeep(G, Nodes, Edges)      Edges = [[node, edge index]...]
 //	8  SubgraphRemove(G, Nodes, Edges)
+//	9  DotString(S)                        strings are byte lists
+//	10 Dot{Name, Label, NodeAttrs, EdgeAttrs}.Sprint(G); HasL/HasN/HasE = the func is non-nil
+type c18Attr struct {
+	N []int `json:"n"`           // attribute name
+	K int   `json:"k"`           // 0 string S, 1 int I, 2 DotLiteral S, 3 bool (unsupported: panics), 4 uint I
+	S []int `json:"s,omitempty"` // bytes
+	I int   `json:"i,omitempty"`
+}
 type c18Case struct {
 	Op    int      `json:"op"`
 	Ops   [][2]int `json:"ops,omitempty"`
@@ -30,6 +39,14 @@ type c18Case struct {
 	W     [][]F64  `json:"w,omitempty"`
 	Nodes []int    `json:"nodes,omitempty"`
 	Edges [][2]int `json:"edges,omitempty"`
+	S      []int         `json:"s,omitempty"`
+	Name   []int         `json:"name,omitempty"`
+	HasL   bool          `json:"hasl,omitempty"`
+	HasN   bool          `json:"hasn,omitempty"`
+	HasE   bool          `json:"hase,omitempty"`
+	Labels [][]int       `json:"labels,omitempty"`
+	NAttrs [][]c18Attr   `json:"nattrs,omitempty"`
+	EAttrs [][][]c18Attr `json:"eattrs,omitempty"`
 }
 
 const c18MaxID = 1 << 22
@@ -56,6 +73,10 @@ func c18Run(raw []byte) (*Line, error) {
 		return c18RunSimplify(&c, l)
 	case 7, 8:
 		return c18RunSub(&c, l)
+	case 9:
+		return c18RunDotString(&c, l)
+	case 10:
+		return c18RunSprint(&c, l)
 	}
 	return nil, fmt.Errorf("bad op %d", c.Op)
 }
@@ -1201,11 +1222,343 @@ func c18GenGraphOps(tier string, rng *rand.Rand, emit func(interface{})) {
 	}
 }
 
+// ---------------------------------------------------------------- op 9/10: Dot
+func c18Bytes(b []int) (string, error) {
+	r := make([]byte, len(b))
+	for i, x := range b {
+		if x < 0 || x > 255 {
+			return "", fmt.Errorf("not a byte")
+		}
+		r[i] = byte(x)
+	}
+	return string(r), nil
+}
+
+func (l *Line) c18Str(s string) *Line {
+	l.I(len(s))
+	for i := 0; i < len(s); i++ {
+		l.I(int(s[i]))
+	}
+	return l
+}
+
+func c18RunDotString(c *c18Case, l *Line) (*Line, error) {
+	s, err := c18Bytes(c.S)
+	if err != nil {
+		return nil, err
+	}
+	l.c18Str(s)
+	var r string
+	pan, _ := catch(func() { r = graphout.DotString(s) })
+	if pan {
+		l.I(2).I(0)
+	} else {
+		l.I(0).c18Str(r)
+	}
+	return l, nil
+}
+
+const c18Sentinel = "\x00sentinel"
+
+func c18MkAttrs(as []c18Attr) ([]graphout.DotAttr, error) {
+	// spare capacity with a sentinel behind the end: Fprint must not write into the caller's slice
+	r := make([]graphout.DotAttr, len(as), len(as)+1)
+	for i, a := range as {
+		name, err := c18Bytes(a.N)
+		if err != nil {
+			return nil, err
+		}
+		sv, err := c18Bytes(a.S)
+		if err != nil {
+			return nil, err
+		}
+		if a.I > 1<<40 || a.I < -(1<<40) {
+			return nil, fmt.Errorf("attribute integer too large")
+		}
+		var v interface{}
+		switch a.K {
+		case 0:
+			v = sv
+		case 1:
+			v = a.I
+		case 2:
+			v = graphout.DotLiteral(sv)
+		case 3:
+			v = a.I != 0
+		case 4:
+			if a.I < 0 {
+				return nil, fmt.Errorf("negative uint")
+			}
+			v = uint(a.I)
+		default:
+			return nil, fmt.Errorf("bad attribute kind")
+		}
+		r[i] = graphout.DotAttr{Name: name, Val: v}
+	}
+	r[:len(as)+1][len(as)] = graphout.DotAttr{Name: c18Sentinel}
+	return r, nil
+}
+
+func (l *Line) c18Attrs(as []c18Attr) *Line {
+	l.I(len(as))
+	for _, a := range as {
+		l.Is(a.N).I(a.K)
+		switch a.K {
+		case 0, 2:
+			l.Is(a.S)
+		case 1, 4:
+			l.I(a.I)
+		}
+	}
+	return l
+}
+
+func c18RunSprint(c *c18Case, l *Line) (*Line, error) {
+	if err := c18ValidGraph(c.G); err != nil {
+		return nil, err
+	}
+	n := len(c.G)
+	if n > 4096 {
+		return nil, fmt.Errorf("graph too large for Dot")
+	}
+	name, err := c18Bytes(c.Name)
+	if err != nil {
+		return nil, err
+	}
+	d := graphout.Dot{Name: name}
+	orig := c18Copy(c.G)
+	l.c18Graph(orig).Is(c.Name)
+	// Label
+	l.B(c.HasL)
+	if c.HasL {
+		if len(c.Labels) != n {
+			return nil, fmt.Errorf("labels do not match the graph")
+		}
+		labels := make([]string, n)
+		l.I(n)
+		for i := range labels {
+			if labels[i], err = c18Bytes(c.Labels[i]); err != nil {
+				return nil, err
+			}
+			l.Is(c.Labels[i])
+		}
+		d.Label = func(node int) string { return labels[node] }
+	} else {
+		l.I(0)
+	}
+	// NodeAttrs
+	var ntab [][]graphout.DotAttr
+	l.B(c.HasN)
+	if c.HasN {
+		if len(c.NAttrs) != n {
+			return nil, fmt.Errorf("node attributes do not match the graph")
+		}
+		l.I(n)
+		for i := 0; i < n; i++ {
+			as, err := c18MkAttrs(c.NAttrs[i])
+			if err != nil {
+				return nil, err
+			}
+			ntab = append(ntab, as)
+			l.c18Attrs(c.NAttrs[i])
+		}
+		d.NodeAttrs = func(node int) []graphout.DotAttr { return ntab[node] }
+	} else {
+		l.I(0)
+	}
+	// EdgeAttrs
+	var etab [][][]graphout.DotAttr
+	l.B(c.HasE)
+	if c.HasE {
+		if len(c.EAttrs) != n {
+			return nil, fmt.Errorf("edge attributes do not match the graph")
+		}
+		l.I(n)
+		for i := 0; i < n; i++ {
+			if len(c.EAttrs[i]) != len(c.G[i]) {
+				return nil, fmt.Errorf("edge attributes do not match the graph")
+			}
+			var row [][]graphout.DotAttr
+			l.I(len(c.EAttrs[i]))
+			for j := range c.EAttrs[i] {
+				as, err := c18MkAttrs(c.EAttrs[i][j])
+				if err != nil {
+					return nil, err
+				}
+				row = append(row, as)
+				l.c18Attrs(c.EAttrs[i][j])
+			}
+			etab = append(etab, row)
+		}
+		d.EdgeAttrs = func(node, edge int) []graphout.DotAttr { return etab[node][edge] }
+	} else {
+		l.I(0)
+	}
+	var out string
+	pan, _ := catch(func() { out = d.Sprint(graph.IntGraph(c.G)) })
+	if pan {
+		l.I(2).I(0)
+	} else {
+		l.I(0).c18Str(out)
+	}
+	pure := c18Same(orig, c.G)
+	chk := func(as []graphout.DotAttr, src []c18Attr) {
+		if len(as) != len(src) || as[:len(as)+1][len(as)].Name != c18Sentinel {
+			pure = false
+		}
+	}
+	for i := range ntab {
+		chk(ntab[i], c.NAttrs[i])
+	}
+	for i := range etab {
+		for j := range etab[i] {
+			chk(etab[i][j], c.EAttrs[i][j])
+		}
+	}
+	l.B(pure)
+	return l, nil
+}
+
+func c18GenDot(tier string, rng *rand.Rand, emit func(interface{})) {
+	thorough := tier == "thorough"
+	special := []int{'\\', '"', 'n', '\n', '{', '}', '<', '>', '|', 'a', 0, 255, ' ', '\r', '\t', 'l', 'N'}
+	emit(c18Case{Op: 9, S: []int{}})
+	for b := 0; b < 256; b++ {
+		emit(c18Case{Op: 9, S: []int{b}})
+		emit(c18Case{Op: 9, S: []int{'\\', b}})
+		emit(c18Case{Op: 9, S: []int{b, '"'}})
+	}
+	for _, a := range special {
+		for _, b := range special {
+			emit(c18Case{Op: 9, S: []int{a, b}})
+			for _, c := range special {
+				if thorough || rng.Intn(3) == 0 {
+					emit(c18Case{Op: 9, S: []int{a, b, c}})
+				}
+			}
+		}
+	}
+	randBytes := func(maxLen int) []int {
+		k := rng.Intn(maxLen + 1)
+		r := make([]int, k)
+		mode := rng.Intn(3)
+		for i := range r {
+			switch {
+			case mode == 0 || rng.Intn(3) == 0:
+				r[i] = special[rng.Intn(len(special))]
+			case mode == 1:
+				r[i] = rng.Intn(256)
+			default:
+				r[i] = 32 + rng.Intn(95)
+			}
+		}
+		return r
+	}
+	nStr := 1500
+	if thorough {
+		nStr = 30000
+	}
+	for k := 0; k < nStr; k++ {
+		emit(c18Case{Op: 9, S: randBytes(40)})
+	}
+	// Sprint
+	toInts := func(s string) []int {
+		r := make([]int, len(s))
+		for i := range r {
+			r[i] = int(s[i])
+		}
+		return r
+	}
+	var names [][]int
+	for _, nm := range []string{"label", "color", "shape", "x", "Label", "labe", "labels"} {
+		names = append(names, toInts(nm))
+	}
+	randAttrs := func(bad bool) []c18Attr {
+		k := rng.Intn(4)
+		if rng.Intn(3) == 0 {
+			k = 0
+		}
+		as := make([]c18Attr, k)
+		for i := range as {
+			a := c18Attr{N: names[rng.Intn(len(names))]}
+			switch rng.Intn(8) {
+			case 0, 1, 2:
+				a.K, a.S = 0, randBytes(8)
+			case 3:
+				a.K, a.I = 1, rng.Intn(2001)-1000
+			case 4:
+				a.K, a.I = 1, []int{0, -1, 9, 10, 99, 100, 1 << 31, -(1 << 33), 1<<40 - 1}[rng.Intn(9)]
+			case 5:
+				a.K, a.S = 2, randBytes(6)
+			case 6:
+				a.K, a.I = 4, rng.Intn(100000)
+			default:
+				a.K, a.S = 0, []int{}
+				if bad {
+					a.K, a.S, a.I = 3, nil, rng.Intn(2)
+				}
+			}
+			as[i] = a
+		}
+		return as
+	}
+	nDot := 2500
+	if thorough {
+		nDot = 40000
+	}
+	for k := 0; k < nDot; k++ {
+		var g [][]int
+		switch {
+		case k < 600:
+			n := k % 4
+			g = c18MaskGraph(n, uint64(rng.Intn(1<<uint(n*n))))
+			if rng.Intn(2) == 0 {
+				g = c18Variant(rng, g)
+			}
+		case k%50 == 0:
+			g = c18Structured(rng, rng.Intn(6), []int{9, 10, 11, 99, 101, 1001}[rng.Intn(6)], rng.Intn(3))
+		default:
+			g = c18RandGraph(rng, 1+rng.Intn(12))
+		}
+		c := c18Case{Op: 10, G: g, Name: randBytes(6)}
+		if rng.Intn(3) == 0 {
+			c.Name = []int{}
+		}
+		bad := rng.Intn(25) == 0
+		if rng.Intn(2) == 0 {
+			c.HasL = true
+			c.Labels = make([][]int, len(g))
+			for i := range g {
+				c.Labels[i] = randBytes(10)
+			}
+		}
+		if rng.Intn(2) == 0 {
+			c.HasN = true
+			c.NAttrs = make([][]c18Attr, len(g))
+			for i := range g {
+				c.NAttrs[i] = randAttrs(bad)
+			}
+		}
+		if rng.Intn(2) == 0 {
+			c.HasE = true
+			c.EAttrs = make([][][]c18Attr, len(g))
+			for i := range g {
+				c.EAttrs[i] = make([][]c18Attr, len(g[i]))
+				for j := range g[i] {
+					c.EAttrs[i][j] = randAttrs(bad)
+				}
+			}
+		}
+		emit(c)
+	}
+}
+
 func c18Gen(tier string, rng *rand.Rand, emit func(interface{})) {
 	c18GenMarks(tier, rng, emit)
 	c18GenTrav(tier, rng, emit)
 	c18GenSCC(tier, rng, emit)
 	c18GenGraphOps(tier, rng, emit)
+	c18GenDot(tier, rng, emit)
 }
 
 func init() { register(&Prop{ID: "C18", Num: 18, Gen: c18Gen, Run: c18Run}) }
